@@ -12,7 +12,7 @@ class C02(InterpProp):
     cmp_callbacks = False
     cmp_err = 'class'
     cmp_time = False
-    quick_cases = 1000
+    quick_cases = 2000
     thorough_cases = 40000
     n_ops = 40
     rule = ('random well-formed charts biased to targets nested in orthogonal regions, history states, ancestors '
